@@ -703,13 +703,16 @@ def writeChunks (g : Nat → UInt64 → Bytes) (m : Mode) (v : EV) : List Bytes 
   let w := if m.pretty then w.emit [10] else w
   (w.rout.reverse :: w.chunks).reverse
 
+/-- the BOM probe of `Xdl::read`: a complete UTF-8 BOM is skipped, anything else is read from the start -/
+def stripBom : Bytes → Bytes
+  | 0xEF :: 0xBB :: 0xBF :: t => t
+  | b => b
+
 /-- `Xdl::read` on a file with this content: BOM probe, chunks of `min(16382, size)` bytes, flush -/
 def readFile (content : Bytes) : Option (Option JV) :=
   let size := min content.length 100000
   if size = 0 then some none else
-  let body := match content with
-    | 0xEF :: 0xBB :: 0xBF :: t => t
-    | _ => content
+  let body := stripBom content
   let n := min 16382 size
   let rec split (fuel : Nat) (b : Bytes) : List Bytes :=
     match fuel with
